@@ -24,6 +24,9 @@ scenario's OWN tags exempt it from skipping), another third / fourth lives in a 
 A share of the rows with outlines is rendered with prog["hdronly"] (one more Examples table with a heading row only).
 The status of a scenario is the one observed on the object that was announced to the formatters during the run
 (run/reports_c17.ScenStatusRecorder), the final walk over the model only where nothing was announced.
+The second run writes its own rerun file to the same path; the same list-file name is then expanded a third time in the
+same process (where the second run left no file: a planted shorter one) and must select what the file says NOW.
+Aborted runs (kbd / context.abort() steps, before_all / after_all raising) are an explicit, never thinned part.
 TLC (Rerun_Trace) judges all rows: which scenarios are unsuccessful is computed there from the recorded final
 statuses.  Python renders, runs, records."""
 import io
@@ -96,7 +99,8 @@ def calls_of(events):
     return [{"name": e["name"], "el": e["el"]} for e in events if e["k"] == "fmt" and e["name"] in ("feature", "eof", "close")]
 
 
-NO_LOOP = {"done": False, "exc": "", "sel": [], "known": [], "ran2done": False, "ran2": [], "skipped2": []}
+NO_LOOP = {"done": False, "exc": "", "sel": [], "known": [], "ran2done": False, "ran2": [], "skipped2": [],
+           "v2kind": "", "v2": [], "sel3done": False, "exc3": "", "sel3": []}
 
 
 def make_row(rid, kind, flat, R, dry, ran, status, calls, had_stale, file, loop):
@@ -120,6 +124,9 @@ def feed_back(scratch, R, second_run=True):
     from behave.formatter._registry import make_formatters
 
     loop = dict(NO_LOOP, done=True)
+    listfile = os.path.join(scratch, "rerun.txt")
+    with open(listfile, encoding="utf-8", errors="replace") as fh:
+        text1 = fh.read()
     fidx = {fn: i for i, (fn, _t) in enumerate(R.files)}
     kinds = {e["id"]: e["kind"] for e in R.flat["elems"]}
 
@@ -130,9 +137,13 @@ def feed_back(scratch, R, second_run=True):
     root = logging.getLogger()
     saved_handlers, saved_level = list(root.handlers), root.level
     sys.stdout, sys.stderr = io.StringIO(), io.StringIO()
+    # the second run is started in the directory of the list file (as `behave @rerun.txt` in the project root): the rerun
+    # formatter writes paths relative to the working directory, a list file resolves them relative to its own directory
+    cwd = os.getcwd()
+    os.chdir(scratch)
     try:
         try:
-            locations = collect_feature_locations(["@" + os.path.join(scratch, "rerun.txt")])
+            locations = collect_feature_locations(["@" + listfile])
             feats = parse_features(locations)
         except BaseException as x:                       # noqa -- recorded, judged by C17.loop
             loop["exc"] = type(x).__name__
@@ -152,7 +163,7 @@ def feed_back(scratch, R, second_run=True):
             return loop
         entered = []
         try:
-            config = Configuration(command_args=["--no-summary", "-f", "null", "-o", os.devnull, "--no-capture",
+            config = Configuration(command_args=["--no-summary", "-f", "null", "-o", os.devnull, "-f", "rerun", "-o", listfile, "--no-capture",
                                                  "--no-capture-stderr", "--no-logcapture"], load_config=False)
             reg = StepRegistry()
             reg.steps["step"].append(ParseMatcher(lambda ctx, org, k: None, "{org:w} {k:d}", "step"))
@@ -167,8 +178,33 @@ def feed_back(scratch, R, second_run=True):
         loop["ran2done"] = True
         loop["ran2"] = sorted(set(entered))
         loop["skipped2"] = sorted({elid(s) for f in feats for s in f.walk_scenarios() if s.status.name == "skipped"})
+        # third start in the same process, same list-file NAME, changed content: the rerun file the second run wrote
+        # (every defined step passed in it, so it is usually shorter); where the second run left none, a planted one --
+        # the first file without its last entry.  The selection must follow the content that is there NOW.
+        text2 = None
+        if os.path.exists(listfile):
+            with open(listfile, encoding="utf-8", errors="replace") as fh:
+                text2 = fh.read()
+            if RP.parse_lines(text2, R):
+                loop["v2kind"] = "real"
+        if not loop["v2kind"]:
+            entries = [l for l in text1.splitlines() if l.strip() and not l.strip().startswith("#")]
+            if len(entries) >= 2:
+                text2 = "# -- RERUN: planted\n" + "\n".join(entries[:-1]) + "\n"
+                with open(listfile, "w", encoding="utf-8") as fh:
+                    fh.write(text2)
+                loop["v2kind"] = "planted"
+        if loop["v2kind"]:
+            loop["v2"] = RP.parse_lines(text2, R)
+            loop["sel3done"] = True
+            try:
+                feats3 = parse_features(collect_feature_locations(["@" + listfile]))
+                loop["sel3"] = sorted({elid(s) for f in feats3 for s in f.walk_scenarios() if not s.should_skip})
+            except BaseException as x:                   # noqa
+                loop["exc3"] = type(x).__name__
         return loop
     finally:
+        os.chdir(cwd)
         sys.stdout, sys.stderr = saved
         root.handlers = saved_handlers
         root.setLevel(saved_level)
@@ -335,18 +371,19 @@ def _el_at(case, x):
 def job_class(job):
     outs = [s["o"] for e in job["flat"]["elems"] for s in e["steps"]]
     return (job["prog"].get("family", ""), "fail" in outs, any(o in ERRORISH for o in outs), len(job["prog"]["features"]) > 1,
-            bool(job["fault"][0]))
+            bool(job["fault"][0]), any(o in ("kbd", "abort") for o in outs), 1 in job["fault"])
 
 
 def thin(jobs, quota, rnd):
     """round robin over the classes (family, has failing step, has erroring/undefined step, several features, hook
-    fault): rare classes -- several features with failures and errors and a hook fault -- are kept first"""
+    fault, a step that aborts the run (kbd / context.abort()), fault at hook 1 = before_all): rare classes -- several
+    features with failures and errors and a hook fault, aborted runs -- are kept first"""
     if len(jobs) <= quota:
         return list(jobs)
     classes = {}
     for j in jobs:
         classes.setdefault(job_class(j), []).append(j)
-    order = sorted(classes, key=lambda c: (-(c[1] + c[2] + c[3] + c[4]), c))
+    order = sorted(classes, key=lambda c: (-(c[1] + c[2] + c[3] + c[4] + c[5] + c[6]), c))
     for c in order:
         rnd.shuffle(classes[c])
     out = []
@@ -354,7 +391,7 @@ def thin(jobs, quota, rnd):
     while len(out) < quota:
         took = False
         for c in order:
-            w = 1 + 2 * (c[1] + c[2] + c[3])          # weight: more from the interesting classes per round
+            w = 1 + 2 * (c[1] + c[2] + c[3]) + c[5] + c[6]          # weight: more from the interesting classes per round
             part = classes[c][k * w:(k + 1) * w]
             if part:
                 took = True
@@ -378,6 +415,46 @@ def plan_jobs(chk, quota):
     if total > quota * 6:                    # thorough: class-balanced pre-sample before the round robin
         jobs = rnd.sample(jobs, quota * 6)
     return thin(jobs, quota, rnd), total
+
+
+def _count_hooks(job):
+    """number of hook invocations of the fault-free run of this case (the last one is after_all)"""
+    try:
+        return drive.run_case(dict(job, fault=[0, 0]))["end"]["nhooks"]
+    except Exception:
+        import traceback
+        return {"driver_error": traceback.format_exc()}
+
+
+def abort_jobs():
+    """runs that end marked as aborted, always kept: (a) something failed before the run is aborted -- by a step
+    (KeyboardInterrupt, context.abort()) or by after_all raising --, (b) all passed but after_all raised (with the planted
+    stale file of the pair rows: it must go), (c) before_all raised (nothing runs), each with and without --stop.
+    Fault positions: 1 = before_all, the last hook invocation of the fault-free run = after_all."""
+    S, F, O, RU = G.scenario, G.feature, G.outline, G.rule
+    progs = [[F([S(["pass"])])],
+             [F([S(["pass"]), O([([], [["pass"], ["pass"]])])]), F([RU([S(["pass", "pass"])])])],
+             [F([S(["fail"]), S(["pass"])])],
+             [F([S(["error"])]), F([S(["pass"]), S(["fail"])])],
+             [F([RU([O([([], [["fail"], ["pass"]])]), S(["undefined"])])]), F([S(["pass"])])],
+             [F([S(["fail"]), S(["abort"]), S(["fail"])]), F([S(["fail"])])],
+             [F([S(["pass", "error"]), S(["pass", "kbd"]), S(["pass"])]), F([S(["fail"])])],
+             [F([S(["pass"]), S(["abort"]), S(["pass"])])],
+             [F([S(["pass"])]), F([O([([], [["fail"], ["abort"], ["fail"]])])]), F([S(["error"])])]]
+    base = []
+    for n, feats in enumerate(progs):
+        p = {"features": feats, "family": "abort"}
+        flat = G.flatten(p)
+        for ci, c in enumerate((G.cfg(), G.cfg(stop=True))):
+            base.append({"key": ["abort", n + 1, ci + 1], "prog": p, "flat": flat, "cfg": c, "fault": [0, 0], "fault_kind": "exc"})
+    counts = pmap(_count_hooks, base)
+    jobs = []
+    for j, nh in zip(base, counts):
+        if isinstance(nh, dict):
+            raise RuntimeError("driver failed on %s:\n%s" % (j["key"], nh["driver_error"]))
+        for fi, f in enumerate(([0, 0], [1, 0], [nh, 0])):
+            jobs.append(dict(j, key=j["key"] + [fi + 1], fault=f, fault_kind="assert" if fi % 2 else "exc"))
+    return jobs
 
 
 def pmap(fn, jobs):
@@ -448,7 +525,8 @@ def run(chk):
     # (no thread is alive while a Pool forks: a child must not inherit a lock held by a TLC thread).
     # Every second pair row is rendered with prog["dupnames"]: all scenarios are called `S`, all outlines `O`, so the
     # feed-back is only right if it selects by location, never by name.
-    jobs, planned = plan_jobs(chk, 1200 if quick else 16000)
+    jobs, planned = plan_jobs(chk, 1150 if quick else 16000)
+    jobs = abort_jobs() + jobs
     # Every second multi-feature run / pair row is rendered with prog["revfiles"]: the feature files are handed to the
     # runner in the order f2, f1, f0, so run order and alphabetical order of the paths differ.
     def variant(j, dup, rev, hdr=False):
@@ -551,6 +629,10 @@ def run(chk):
     chk.extra["rows_with_feed_back"] = sum(1 for x in rows if x["loop"]["done"])
     chk.extra["rows_with_second_run"] = sum(1 for x in rows if x["loop"]["ran2done"])
     chk.extra["rows_not_judged_run_died"] = not_judged
+    chk.extra["rows_third_expansion_of_the_same_list_file"] = {k: sum(1 for x in rows if x["loop"]["v2kind"] == k) for k in ("real", "planted")}
+    chk.extra["rows_of_aborted_runs"] = sum(
+        1 for x in rows if x["kind"] != "synth" and (metas[x["id"]]["job"]["key"][0] == "abort" or job_class(metas[x["id"]]["job"])[5]
+                                                     or job_class(metas[x["id"]]["job"])[6]))
     fbrows = [x for x in rows if x["loop"]["done"]]
     chk.extra["feed_back_rows_in_oddly_named_directories"] = sum(
         1 for x in fbrows if metas[x["id"]].get("oddpath") or metas[x["id"]].get("job", {}).get("oddpath"))
